@@ -219,3 +219,54 @@ pub mod tuple {
         }
     }
 }
+
+/// Transaction coordinator entry points (multithreading::coordinator) on a scratch pager.
+pub mod coordinator {
+    use crate::io::pager::{Pager, SharedPager};
+    use crate::multithreading::coordinator::{Snapshot, TransactionCoordinator};
+    use crate::types::LogicalId;
+    use crate::DBConfig;
+    use std::path::Path;
+
+    pub struct Coord {
+        c: TransactionCoordinator,
+    }
+
+    impl Coord {
+        pub fn create(path: &Path) -> Result<Self, String> {
+            let pager = Pager::from_config(DBConfig::default(), path).map_err(|e| e.to_string())?;
+            let shared = SharedPager::from(pager);
+            Ok(Coord { c: TransactionCoordinator::new(shared) })
+        }
+        /// Begins a transaction; the handle is leaked so that nothing is aborted behind the caller's back.
+        pub fn begin(&self) -> Result<(u64, Snapshot), String> {
+            let h = self.c.begin().map_err(|e| e.to_string())?;
+            let r = (h.id(), h.snapshot().clone());
+            std::mem::forget(h);
+            Ok(r)
+        }
+        pub fn commit(&self, id: u64) -> Result<(), String> {
+            self.c.commit(id).map_err(|e| format!("{e}"))
+        }
+        pub fn abort(&self, id: u64) -> Result<(), String> {
+            self.c.abort(id).map_err(|e| format!("{e}"))
+        }
+        pub fn record_write(&self, id: u64, table: u64, row: u64, version: u8) -> Result<(), String> {
+            self.c.record_write(id, LogicalId::new(table, row), version).map_err(|e| format!("{e}"))
+        }
+        pub fn snapshot(&self, id: u64) -> Result<Snapshot, String> {
+            self.c.snapshot(id).map_err(|e| e.to_string())
+        }
+        pub fn vacuum_transactions(&self) -> usize {
+            self.c.vacuum_transactions()
+        }
+        pub fn last_committed(&self) -> u64 {
+            self.c.get_last_committed()
+        }
+    }
+
+    /// `(xid, xmin, xmax)` of a snapshot.
+    pub fn snapshot_fields(s: &Snapshot) -> (u64, u64, Option<u64>) {
+        (s.xid(), s.xmin(), s.xmax())
+    }
+}
